@@ -176,7 +176,7 @@ theorem armSequence_static (s : Layout) (a : Action) (evs : List SeqEv) (c : Coo
     Static s (armSequence s a evs c o rep) := by
   unfold armSequence
   simp only []
-  generalize hs1 : ({ s with activeSequences := (pushBackWrap ACTIVE_SEQ_CAP s.activeSequences { remaining := evs }).1 } : Layout) = s1
+  generalize hs1 : startSequence s evs = s1
   have h1 : Static s s1 := by subst hs1; exact ⟨rfl, rfl, rfl, rfl, rfl, rfl, rfl, rfl⟩
   generalize hs2 : (if rep then s1.pushState (.repeatingSequence evs c) else s1) = s2
   have h2 : Static s1 s2 := by
@@ -206,33 +206,30 @@ theorem R.of_frame {s s' : Layout} (hf : Frame s s') (h : SeqInv s) : R s s' 0 :
 
 theorem frag_all : ∀ fuel : Nat,
     (∀ s a coord delay o ls s' cu, SeqInv s → MFrag a → a ≠ .trans →
-      s.activeSequences.length + seqCount a ≤ ACTIVE_SEQ_CAP →
       doAction fuel s a coord delay o ls = .ok (s', cu) → R s s' (seqCount a)) ∧
     (∀ s a coord delay o ls s' cu, SeqInv s → MFrag a →
-      s.activeSequences.length + seqCount a ≤ ACTIVE_SEQ_CAP →
       dispatch fuel s a coord delay o ls = .ok (s', cu) → R s s' (seqCount a)) ∧
     (∀ s acs coord delay o ls cu0 s' cu, SeqInv s → MFragL acs →
-      s.activeSequences.length + seqCountL acs ≤ ACTIVE_SEQ_CAP →
       doActions fuel s acs coord delay o ls cu0 = .ok (s', cu) → R s s' (seqCountL acs)) := by
   intro fuel
   induction fuel with
   | zero =>
     refine ⟨?_, ?_, ?_⟩
-    · intro s a coord delay o ls s' cu _ _ _ _ h; simp [doAction] at h
-    · intro s a coord delay o ls s' cu _ _ _ h; simp [dispatch] at h
-    · intro s acs coord delay o ls cu0 s' cu _ _ _ h; simp [doActions] at h
+    · intro s a coord delay o ls s' cu _ _ _ h; simp [doAction] at h
+    · intro s a coord delay o ls s' cu _ _ h; simp [dispatch] at h
+    · intro s acs coord delay o ls cu0 s' cu _ _ h; simp [doActions] at h
   | succ fuel ih =>
     obtain ⟨ih1, ih2, ih3⟩ := ih
     refine ⟨?_, ?_, ?_⟩
     · -- doAction: no resolution for a non-transparent action, then the prelude
-      intro s a coord delay o ls s' cu hi hf hnt hroom h
+      intro s a coord delay o ls s' cu hi hf hnt h
       have hp := prelude_frame s coord
       have hd : dispatch fuel (prelude s coord) a coord delay o ls = .ok (s', cu) := by
         cases a <;> first | exact absurd rfl hnt | (simp only [doAction] at h; exact h)
-      have := ih2 (prelude s coord) a coord delay o ls s' cu (hp.inv hi) hf (by rw [hp.seqs]; exact hroom) hd
+      have := ih2 (prelude s coord) a coord delay o ls s' cu (hp.inv hi) hf hd
       exact ⟨hp.st.trans this.st, this.inv, by rw [← hp.seqs]; exact this.len⟩
     · -- dispatch
-      intro s a coord delay o ls s' cu hi hf hroom h
+      intro s a coord delay o ls s' cu hi hf h
       cases a <;> simp only [MFrag] at hf <;> simp only [dispatch] at h
       case noOp =>
         injection h with h; injection h with h1 h2; subst h1
@@ -254,28 +251,27 @@ theorem frag_all : ∀ fuel : Nat,
           exact R.of_frame hfr hi
       case sequence evs =>
         injection h with h; injection h with h1 h2; subst h1
-        simp only [seqCount] at hroom ⊢
-        obtain ⟨a1, a2⟩ := armSequence_inv s (.sequence evs) evs coord o false hi hf (by omega)
-        exact ⟨armSequence_static s _ evs coord o false, a1, by rw [a2]; simp⟩
+        simp only [seqCount]
+        obtain ⟨a1, a2, _⟩ := armSequence_inv s (.sequence evs) evs coord o false hi hf
+        exact ⟨armSequence_static s _ evs coord o false, a1, a2⟩
       case repeatableSequence evs =>
         injection h with h; injection h with h1 h2; subst h1
-        simp only [seqCount] at hroom ⊢
-        obtain ⟨a1, a2⟩ := armSequence_inv s (.repeatableSequence evs) evs coord o true hi hf (by omega)
-        exact ⟨armSequence_static s _ evs coord o true, a1, by rw [a2]; simp⟩
+        simp only [seqCount]
+        obtain ⟨a1, a2, _⟩ := armSequence_inv s (.repeatableSequence evs) evs coord o true hi hf
+        exact ⟨armSequence_static s _ evs coord o true, a1, a2⟩
       case multipleActions acs =>
         split at h
         · cases h
         · rename_i s1 c1 hr
           injection h with h; injection h with h1 h2; subst h1
           have hu := updateCoord_frame s coord
-          simp only [seqCount] at hroom ⊢
-          have := ih3 (updateCoord s coord) acs coord delay o ls .noEvent s1 c1 (hu.inv hi) hf
-            (by rw [hu.seqs]; exact hroom) hr
+          simp only [seqCount]
+          have := ih3 (updateCoord s coord) acs coord delay o ls .noEvent s1 c1 (hu.inv hi) hf hr
           have hr' := setRpt_frame s1 (some (Action.multipleActions acs))
           exact ⟨(hu.st.trans this.st).trans hr'.st, hr'.inv this.inv, by
             have := this.len; rw [hu.seqs] at this; exact this⟩
     · -- doActions
-      intro s acs coord delay o ls cu0 s' cu hi hf hroom h
+      intro s acs coord delay o ls cu0 s' cu hi hf h
       cases acs with
       | nil =>
         simp only [doActions] at h
@@ -283,14 +279,13 @@ theorem frag_all : ∀ fuel : Nat,
         exact ⟨Static.refl s, hi, by simp [seqCountL]⟩
       | cons a rest =>
         simp only [MFragL] at hf
-        simp only [seqCountL] at hroom ⊢
+        simp only [seqCountL]
         simp only [doActions] at h
         split at h
         · cases h
         · rename_i s1 c1 hr
-          have r1 := ih1 s a coord delay o ls s1 c1 hi hf.1 hf.2.1 (by omega) hr
-          have r2 := ih3 s1 rest coord delay o ls (cu0.update c1) s' cu r1.inv hf.2.2
-            (by have := r1.len; omega) h
+          have r1 := ih1 s a coord delay o ls s1 c1 hi hf.1 hf.2.1 hr
+          have r2 := ih3 s1 rest coord delay o ls (cu0.update c1) s' cu r1.inv hf.2.2 h
           exact ⟨r1.st.trans r2.st, r2.inv, by have := r1.len; have := r2.len; omega⟩
 
 mutual
@@ -356,13 +351,13 @@ theorem frag_ext : ∀ fuel : Nat,
       case sequence evs =>
         injection h with h; injection h with h1 h2; subst h1
         simp only [seqCount] at hroom
-        obtain ⟨_, a2⟩ := armSequence_inv s (.sequence evs) evs coord o false hi hf (by omega)
-        exact ⟨_, a2⟩
+        obtain ⟨_, _, a2⟩ := armSequence_inv s (.sequence evs) evs coord o false hi hf
+        exact ⟨_, a2 (by omega)⟩
       case repeatableSequence evs =>
         injection h with h; injection h with h1 h2; subst h1
         simp only [seqCount] at hroom
-        obtain ⟨_, a2⟩ := armSequence_inv s (.repeatableSequence evs) evs coord o true hi hf (by omega)
-        exact ⟨_, a2⟩
+        obtain ⟨_, _, a2⟩ := armSequence_inv s (.repeatableSequence evs) evs coord o true hi hf
+        exact ⟨_, a2 (by omega)⟩
       case multipleActions acs =>
         split at h
         · cases h
@@ -389,7 +384,7 @@ theorem frag_ext : ∀ fuel : Nat,
         · cases h
         · rename_i s1 c1 hr
           obtain ⟨st1, h1⟩ := ih1 s a coord delay o ls s1 c1 hi hf.1 hf.2.1 hnc.1 (by omega) hr
-          have r1 := (frag_all fuel).1 s a coord delay o ls s1 c1 hi hf.1 hf.2.1 (by omega) hr
+          have r1 := (frag_all fuel).1 s a coord delay o ls s1 c1 hi hf.1 hf.2.1 hr
           obtain ⟨st2, h2⟩ := ih3 s1 rest coord delay o ls (cu0.update c1) s' cu r1.inv hf.2.2 hnc.2
             (by have := r1.len; omega) h
           exact ⟨st1 ++ st2, by rw [h2, h1, List.append_assoc]⟩
@@ -701,15 +696,12 @@ theorem processExtraWaitings_quiet {s : Layout} (h : s.extraWaiting = []) (cu : 
 
 /-! ### a whole tick, an event -/
 
-/-- the press being processed resolves to an action for whose sequences the ring has room -/
-def RoomFor (s : Layout) (c : Coord) : Prop :=
-  ∀ order a ls, s.transOrder = .ok order → s.resolveCoord c order = .ok (a, ls) →
-    s.activeSequences.length + seqCount a ≤ ACTIVE_SEQ_CAP
-
-theorem dequeue_spec {s : Layout} (hc : CfgM s.cfg) (hq : Quiet s) (hi : SeqInv s) (q : Queued)
-    (hroom : ∀ c, q.ev = .press c → RoomFor s c) (s' : Layout) (cu : CustomEv)
-    (h : dequeue FUEL s q = .ok (s', cu)) : Static s s' ∧ SeqInv s' := by
-  rw [FUEL_succ] at h
+theorem dequeue_spec (fuel : Nat) {s : Layout} (hc : CfgM s.cfg) (hq : Quiet s) (hi : SeqInv s) (q : Queued)
+    (s' : Layout) (cu : CustomEv)
+    (h : dequeue fuel s q = .ok (s', cu)) : Static s s' ∧ SeqInv s' := by
+  cases fuel with
+  | zero => simp [dequeue] at h
+  | succ fuel =>
   simp only [dequeue] at h
   cases hev : q.ev with
   | release c =>
@@ -742,21 +734,20 @@ theorem dequeue_spec {s : Layout} (hc : CfgM s.cfg) (hq : Quiet s) (hi : SeqInv 
     | ok order =>
       rw [hto] at h
       simp only [hq.tde] at h
-      rw [show (3999 : Nat) = 3998 + 1 from rfl] at h
+      cases fuel with
+      | zero => simp [doAction] at h
+      | succ fuel =>
       simp only [doAction] at h
       split at h
       · cases h
       · rename_i a ls hres
         have hp := prelude_frame s c
         have hf := resolve_mfrag s c hc order a ls hres
-        have r := (frag_all 3998).2.1 (prelude s c) a c q.since false ls s' cu (hp.inv hi) hf
-          (by rw [hp.seqs]; exact hroom c hev order a ls hto hres) h
+        have r := (frag_all fuel).2.1 (prelude s c) a c q.since false ls s' cu (hp.inv hi) hf h
         exact ⟨hp.st.trans r.st, r.inv⟩
 
-/-- **one tick keeps the invariant**, provided a press processed in this tick finds room in the
-ring for the sequences its action starts -/
+/-- **one tick keeps the invariant** -/
 theorem tick_inv {s : Layout} (hc : CfgM s.cfg) (hq : Quiet s) (hi : SeqInv s)
-    (hroom : ∀ q rest c, s.queue = q :: rest → q.ev = .press c → RoomFor (tickPre s) c)
     (s' : Layout) (cu : CustomEv) (h : tick s = .ok (s', cu)) :
     Quiet s' ∧ SeqInv s' ∧ s'.cfg = s.cfg := by
   obtain ⟨p1, p2, p3⟩ := tickPre_spec hq hi
@@ -777,22 +768,8 @@ theorem tick_inv {s : Layout} (hc : CfgM s.cfg) (hq : Quiet s) (hi : SeqInv s)
       · rename_i q rest hqueue
         have hs : Static (tickPre s) ((tickPre s).setQueue rest) := ⟨rfl, rfl, rfl, rfl, rfl, rfl, rfl, rfl⟩
         have hi' : SeqInv ((tickPre s).setQueue rest) := p2.frame rfl (fun _ h => h) (fun _ _ h => h)
-        have hroom' : ∀ c, q.ev = .press c → RoomFor ((tickPre s).setQueue rest) c := by
-          intro c hc'
-          rw [p3] at hqueue
-          cases hsq : s.queue with
-          | nil => rw [hsq] at hqueue; cases hqueue
-          | cons q0 rest0 =>
-            rw [hsq] at hqueue
-            simp only [List.map_cons, List.cons.injEq] at hqueue
-            have hq0 : q0.ev = .press c := by rw [← hc', ← hqueue.1]
-            have := hroom q0 rest0 c hsq hq0
-            intro order a ls hto hres
-            have e1 : ((tickPre s).setQueue rest).transOrder = (tickPre s).transOrder := rfl
-            have e2 := resolveCoord_congr (s := (tickPre s).setQueue rest) (t := tickPre s) rfl c order
-            exact this order a ls (e1 ▸ hto) (e2 ▸ hres)
-        have := dequeue_spec (s := (tickPre s).setQueue rest) (by rw [hs.cfg, p1.cfg]; exact hc)
-          (hq1.of_static hs) hi' q hroom' s2 c2 hm
+        have := dequeue_spec FUEL (s := (tickPre s).setQueue rest) (by rw [hs.cfg, p1.cfg]; exact hc)
+          (hq1.of_static hs) hi' q s2 c2 hm
         exact ⟨hs.trans this.1, this.2⟩
       · injection hm with hm; injection hm with h1 h2
         subst h1
@@ -812,14 +789,81 @@ theorem tick_inv {s : Layout} (hc : CfgM s.cfg) (hq : Quiet s) (hi : SeqInv s)
     have hst := ((p1.trans m1).trans f3.st).trans f4.st
     exact ⟨hq.of_static hst, f4.inv (f3.inv m2), hst.cfg⟩
 
-/-- **an event that finds room in the queue keeps the invariant** (it is only appended) -/
-theorem event_inv {s : Layout} (hq : Quiet s) (hi : SeqInv s) (e : Ev) (hlen : s.queue.length < QUEUE_SIZE)
+theorem flushWaitings_quiet : ∀ (l : List (Option Nat)) (fuel : Nat) (s s' : Layout), Quiet s →
+    flushWaitings fuel s l = .ok s' → s' = s := by
+  intro l
+  induction l with
+  | nil =>
+    intro fuel s s' _ h
+    cases fuel with
+    | zero => simp [flushWaitings] at h
+    | succ fuel => simp only [flushWaitings] at h; injection h with h; exact h.symm
+  | cons i rest ih =>
+    intro fuel s s' hq h
+    cases fuel with
+    | zero => simp [flushWaitings] at h
+    | succ fuel =>
+      simp only [flushWaitings, bind, Except.bind] at h
+      have hw : waitingIntoHold fuel s i = .error .fuelOut ∨ waitingIntoHold fuel s i = .ok (s, .noEvent) := by
+        cases fuel with
+        | zero => exact Or.inl (by simp [waitingIntoHold])
+        | succ fuel =>
+          right
+          cases i with
+          | none => simp [waitingIntoHold, takeWaiting, hq.waiting]
+          | some j => simp [waitingIntoHold, takeWaiting, hq.extra]
+      rcases hw with hw | hw
+      · rw [hw] at h; cases h
+      · rw [hw] at h
+        exact ih fuel s s' hq h
+
+/-- **an event keeps the invariant**, also when the queue of 32 is full and the oldest event is
+processed at once -/
+theorem event_inv {s : Layout} (hc : CfgM s.cfg) (hq : Quiet s) (hi : SeqInv s) (e : Ev)
     (s' : Layout) (h : s.event e = .ok s') : Quiet s' ∧ SeqInv s' ∧ s'.cfg = s.cfg := by
   unfold Layout.event at h
   rw [FUEL_succ] at h
-  cases e <;> simp only [event, pushBackWrap, hlen, if_true, pure, Except.pure] at h <;>
-    (injection h with h; subst h
-     exact ⟨⟨hq.waiting, hq.extra, hq.tde, hq.aq, hq.osh⟩, hi.frame rfl (fun _ h => h) (fun _ _ h => h), rfl⟩)
+  -- the state with the input history updated, the queue still to be pushed
+  have core : ∀ s0 : Layout, Frame s s0 →
+      ∀ r : List Queued × Option Queued,
+      (match r with
+        | (q, ov) =>
+          match ov with
+          | none => (pure ({ s0 with queue := q } : Layout) : Except Crash Layout)
+          | some overflow => do
+            let s ← flushWaitings 3999 ({ s0 with queue := q } : Layout) (none :: (List.range EXTRA_WAITING_LEN).map some)
+            let (s, _) ← dequeue 3999 s overflow
+            pure s) = .ok s' →
+      Quiet s' ∧ SeqInv s' ∧ s'.cfg = s.cfg := by
+    intro s0 f0 r h
+    obtain ⟨q, ov⟩ := r
+    have f1 : Frame s ({ s0 with queue := q } : Layout) :=
+      f0.trans ⟨⟨rfl, rfl, rfl, rfl, rfl, rfl, rfl, rfl⟩, rfl, fun _ h => h, fun _ _ h => h⟩
+    have hq1 : Quiet ({ s0 with queue := q } : Layout) := hq.of_static f1.st
+    cases ov with
+    | none =>
+      simp only [pure, Except.pure] at h
+      injection h with h; subst h
+      exact ⟨hq1, f1.inv hi, f1.st.cfg⟩
+    | some overflow =>
+      simp only [bind, Except.bind, pure, Except.pure] at h
+      split at h
+      · cases h
+      · rename_i s1 hfl
+        have := flushWaitings_quiet _ _ _ _ hq1 hfl
+        subst this
+        split at h
+        · cases h
+        · rename_i r hd
+          obtain ⟨s2, c2⟩ := r
+          injection h with h; subst h
+          obtain ⟨d1, d2⟩ := dequeue_spec 3999 (by rw [f1.st.cfg]; exact hc) hq1 (f1.inv hi) overflow s2 c2 hd
+          exact ⟨hq1.of_static d1, d2, d1.cfg.trans f1.st.cfg⟩
+  cases e with
+  | press c =>
+    exact core { s with histInputs := histPush s.histInputs c }
+      ⟨⟨rfl, rfl, rfl, rfl, rfl, rfl, rfl, rfl⟩, rfl, fun _ h => h, fun _ _ h => h⟩ _ h
+  | release c => exact core s (Frame.refl s) _ h
 
 /-! ### the cancellation glue (Model/MacroCancel.lean) -/
 
@@ -865,7 +909,7 @@ theorem customEffects_inv (tbl : Nat → List CAct) (k : KState) (ce : CustomEv)
     · exact ⟨hk, rfl⟩
     · exact ⟨hk, rfl⟩
 
-theorem kpress_inv {k : KState} (h : KInv k) (c : Coord) (hlen : k.prePress.lay.queue.length < QUEUE_SIZE)
+theorem kpress_inv {k : KState} (hc : CfgM k.lay.cfg) (h : KInv k) (c : Coord)
     (k' : KState) (hp : k.press c = .ok k') : KInv k' ∧ k'.lay.cfg = k.lay.cfg := by
   unfold KState.press at hp
   obtain ⟨p1, p2⟩ := prePress_inv h
@@ -874,28 +918,27 @@ theorem kpress_inv {k : KState} (h : KInv k) (c : Coord) (hlen : k.prePress.lay.
   · cases hp
   · rename_i l hl
     injection hp with hp; subst hp
-    obtain ⟨e1, e2, e3⟩ := event_inv p1.quiet p1.inv (.press c) hlen l hl
+    obtain ⟨e1, e2, e3⟩ := event_inv (p2 ▸ hc) p1.quiet p1.inv (.press c) l hl
     exact ⟨⟨e1, e2⟩, e3.trans p2⟩
 
-theorem krelease_inv {k : KState} (h : KInv k) (c : Coord) (hlen : k.lay.queue.length < QUEUE_SIZE)
+theorem krelease_inv {k : KState} (hc : CfgM k.lay.cfg) (h : KInv k) (c : Coord)
     (k' : KState) (hp : k.release c = .ok k') : KInv k' ∧ k'.lay.cfg = k.lay.cfg := by
   unfold KState.release KState.rawEvent at hp
   split at hp
   · cases hp
   · rename_i l hl
     injection hp with hp; subst hp
-    obtain ⟨e1, e2, e3⟩ := event_inv h.quiet h.inv (.release c) hlen l hl
+    obtain ⟨e1, e2, e3⟩ := event_inv hc h.quiet h.inv (.release c) l hl
     exact ⟨⟨e1, e2⟩, e3⟩
 
 theorem ktick_inv (tbl : Nat → List CAct) {k : KState} (hc : CfgM k.lay.cfg) (h : KInv k)
-    (hroom : ∀ q rest c, k.lay.queue = q :: rest → q.ev = .press c → RoomFor (tickPre k.lay) c)
     (k' : KState) (keys : List KeyCode) (ht : k.tick tbl = .ok (k', keys)) :
     KInv k' ∧ k'.lay.cfg = k.lay.cfg := by
   unfold KState.tick at ht
   split at ht
   · cases ht
   · rename_i l ce hl
-    obtain ⟨t1, t2, t3⟩ := tick_inv hc h.quiet h.inv hroom l ce hl
+    obtain ⟨t1, t2, t3⟩ := tick_inv hc h.quiet h.inv l ce hl
     obtain ⟨c1, c2⟩ := customEffects_inv tbl { k with lay := l } ce ⟨t1, t2⟩
     injection ht with ht; injection ht with h1 h2
     subst h1
